@@ -10,7 +10,7 @@ Require Import Zrs.model.SeqNorm Zrs.proofs.C02_O1.
 Require Import Zrs.proofs.C02_HufSide Zrs.proofs.C02_O2Table.
 Require Import Zrs.model.HufEnc Zrs.proofs.C13_Agree Zrs.proofs.C02_O2Huffman Zrs.proofs.C02_O2Complete.
 Require Import Permutation Zrs.proofs.C02_O2Shape Zrs.proofs.C02_O2Treeless.
-Require Import Zrs.model.BitStream Zrs.model.SeqEnc Zrs.model.FseEnc Zrs.model.FseNorm Zrs.model.WeightEnc Zrs.model.HufCounts Zrs.proofs.C13_Direct Zrs.proofs.C13_WeightModel Zrs.proofs.C02_O2Counts Zrs.proofs.C02_O2Compressor Zrs.model.LitComp Zrs.proofs.C02_LitPart.
+Require Import Zrs.model.BitStream Zrs.model.SeqEnc Zrs.model.FseEnc Zrs.model.FseNorm Zrs.model.WeightEnc Zrs.model.HufCounts Zrs.proofs.C13_Direct Zrs.proofs.C13_WeightModel Zrs.proofs.C02_O2Counts Zrs.proofs.C02_O2Compressor Zrs.model.LitComp Zrs.proofs.C02_LitPart Zrs.proofs.C02_Closed.
 Open Scope Z_scope.
 
 (** level Uncompressed: every input, every fragmentation of the source reads, every block size up to 128 KiB, every
@@ -354,6 +354,40 @@ Proof. exact literals_part_meets_O2. Qed.
 Example C02_literals_part_initially : tab_rel None huf_new /\ hinv huf_new.
 Proof. split; [intros codes E; discriminate|reflexivity]. Qed.
 
+(** ... and the model takes both Huffman endings on concrete literals: a new table for the first buffer (literals type
+    2), the remembered table for a second buffer with nearly the same statistics (type 3, table kept) *)
+Example C02_literals_part_example :
+  let d1 := flat_map (fun _ => [1; 1; 1; 2; 1; 3; 1; 1; 2; 1]) (seq 0 120) in
+  let d2 := flat_map (fun _ => [1; 1; 3; 2; 1; 3; 1; 1; 2; 1]) (seq 0 120) in
+  exists hdr1 p1 c hdr2 p2,
+    literals_part None d1 = ROk (hdr1, p1, Some c) /\ nth 0 hdr1 0 mod 4 = 2 /\
+    literals_part (Some c) d2 = ROk (hdr2, p2, Some c) /\ nth 0 hdr2 0 mod 4 = 3.
+Proof.
+  cbv zeta. do 5 eexists. split; [vm_compute; reflexivity|]. split; [reflexivity|]. split; [vm_compute; reflexivity|reflexivity].
+Qed.
+
+(** level Fastest with nothing left as a parameter: the match finder model, the normaliser model (O1 proved) and the
+    modelled literals part (O2 proved block by block, threaded through the frame with the remembered-table relation)
+    -- every input, every fragmentation of the reads, every block size, every window, every reuse history *)
+Theorem C02_fastest_roundtrip_closed : forall slice wsize hash32 cs data script frame cs' r',
+  Cinit2 _ cs -> 1 <= Z.of_nat slice <= 131072 -> 1 <= wsize <= 2 ^ 27 ->
+  (forall h x, hash32 = Some h -> length (h x) = 4%nat) ->
+  compress_frame (cst2 (option codes_t)) (cblock2 norm_model _ litenc_model) (cskip2 _) (cfallback2 _ None) (creset2 _ None) LFastest slice wsize hash32 cs
+    {| rd_data := data; rd_script := script |} = ROk (frame, cs', r') ->
+  exists d1 rest evs s1 d2 s2,
+    fdec_reset fdec_new frame = ROk (d1, rest, evs) /\ fd_state d1 = Some s1 /\
+    fdec_decode_blocks d1 rest SAll = ROk (d2, [], true) /\ fd_state d2 = Some s2 /\
+    buf_content s2 = data /\
+    fr_checksum s2 = match hash32 with Some h => Some (le_val (h data)) | None => None end.
+Proof. exact fastest_roundtrip_closed. Qed.
+
+(** a fresh compressor satisfies its premise *)
+Example C02_new_compressor_is_initial_closed : Cinit2 _ {| c2_d := mgd_new (Z.to_nat 131072) 1; c2_ht := @None codes_t |}.
+Proof.
+  unfold Cinit2. cbn [c2_d]. destruct (mgd_new_inv (Z.to_nat 131072) 1) as (HI & Hm & _). split; [exact HI|]. rewrite Hm. lia.
+Qed.
+
+Print Assumptions C02_fastest_roundtrip_closed.
 Print Assumptions C02_literals_part_meets_O2.
 Print Assumptions C02_compressor_huffman_section_from_the_literals.
 Print Assumptions C02_weights_by_rank_are_an_assignment_of_the_shape.
